@@ -337,9 +337,12 @@ func (e *Enc) run(known compSet) {
 		e.vals[fv] = tv(c)
 	}
 	if e.hasGhost("panicking") {
-		// normal (non-exceptional) execution: no panic is in flight
+		// normal (non-exceptional) execution: no panic is in flight - except in functions that call recover() themselves
+		// (deferred recover helpers run in both situations; their contract must be proved for both)
 		e.compSort["X:panicking"] = SBool
-		e.assert(Not(e.comp(st0, "X:panicking", SBool)))
+		if !callsRecover(e.fn) {
+			e.assert(Not(e.comp(st0, "X:panicking", SBool)))
+		}
 	}
 	e.pre = st0
 	e.initTrace(st0)
@@ -944,6 +947,20 @@ func (e *Enc) asTerm(st *State, v Val) Term {
 		return e.ptrTerm(st, v)
 	}
 	return v.T
+}
+
+// callsRecover: the function's own body calls the builtin recover().
+func callsRecover(fn *ssa.Function) bool {
+	for _, b := range fn.Blocks {
+		for _, ins := range b.Instrs {
+			if c, ok := ins.(*ssa.Call); ok {
+				if bi, ok := c.Call.Value.(*ssa.Builtin); ok && bi.Name() == "recover" {
+					return true
+				}
+			}
+		}
+	}
+	return false
 }
 
 func (e *Enc) unop(st *State, ins *ssa.UnOp) {
